@@ -939,6 +939,13 @@ def method_call(ev, recv, name, args, kwargs, fr, node):
     if T.is_op(recv, 'HEX') and name == 'startswith' and len(args) == 1 and T.is_const(args[0]) and isinstance(args[0][1], str) \
             and set(args[0][1]) - set('0123456789abcdef'):
         return T.FALSE
+    if name in ('removeprefix', 'removesuffix') and len(args) == 1:
+        if T.is_const(recv) and T.is_const(args[0]) and isinstance(recv[1], (str, bytes)):
+            try:
+                return T.const(getattr(recv[1], name)(args[0][1]))
+            except Exception:
+                return T.raise_('TypeError')
+        return T.raw_op(name.upper(), recv, args[0])       # removes at most ONE occurrence (unlike lstrip / rstrip)
     if name in ('strip', 'lstrip', 'rstrip', 'upper', 'lower', 'zfill', 'startswith', 'endswith', 'find', 'rfind',
                 'index', 'count', 'replace', 'isdigit', 'ljust', 'rjust', 'title', 'capitalize'):
         if T.is_const(recv) and all(T.is_const(a) for a in args) and isinstance(recv[1], (str, bytes)):
